@@ -362,6 +362,12 @@ class LibMap:
                          "long double": "fabsl"}.get(act, None)
                 if cname is None:
                     return None
+            if name in ("isfinite", "isnan", "isinf") and len(args) == 1:
+                # classification macros expand to __builtin_* calls that dfcc instruments as functions (type error in
+                # cbmc 6.11): use the CPROVER expressions they are defined by
+                suf = {"double": "d", "float": "f", "long double": "ld"}.get(self.mapped(em, args[0]))
+                if suf is not None:
+                    return "__CPROVER_%s%s(%s)" % (name, suf, a[0])
             return "%s(%s)" % (cname, ", ".join(a))
         if name in CLIB:
             return "%s(%s)" % (name, ", ".join(em.E(x) for x in args))
